@@ -1,6 +1,6 @@
 (* ArrayAliasProofs.v — resize(n, a[i]) with the fill value referring to an own element (D11). *)
 From Coq Require Import List ZArith Bool Lia.
-From Tulz Require Import Common RingModel ArrayModel.
+From Tulz Require Import Common RingModel ArrayModel ArrayInv ArrayProofs.
 Import ListNotations.
 Local Open Scope Z_scope.
 
@@ -62,4 +62,161 @@ Proof.
     rewrite app_nil_r in H0. unfold Zlen. rewrite Nat2Z.id. exact H0. }
   destruct (construct_at (repeat Raw (Z.to_nat (Zlen vals))) 0 vals) as [d ev].
   cbn [fst] in *. rewrite H. reflexivity.
+Qed.
+
+(* ---- histories with aliasing resizes and adoptions are histories of ordinary operations ---------- *)
+
+(* the ordinary line a special line stands for, given the environment it is executed in *)
+Definition adesugar (cls : bool) (e : aenv) (op : list Z) : list Z :=
+  match op with
+  | [15; b; n; i] =>
+      match aenv_get e b with
+      | Some a => match read a i with
+                  | Some (Live v, _) => [10; b; n; v]
+                  | _ => []          (* not an operation: rejected on both sides *)
+                  end
+      | None => []
+      end
+  | 16 :: b :: vals => 2 :: b :: vals
+  | _ => op
+  end.
+
+Fixpoint adesugar_all (cls : bool) (e : aenv) (ops : list (list Z)) : list (list Z) :=
+  match ops with
+  | [] => []
+  | op :: rest => let op' := adesugar cls e op in op' :: adesugar_all cls (fst (arr_step afixed cls e op')) rest
+  end.
+
+(* every line is an aliasing resize, an adoption, or a line both runners treat alike *)
+Lemma aop_cases : forall op : list Z,
+  (exists b n i, op = [15; b; n; i]) \/
+  (exists b vals, op = 16 :: b :: vals) \/
+  ((forall g vr cls e, arr_step_d g vr cls e op = arr_step vr cls e op) /\
+   (forall cls e, adesugar cls e op = op)).
+Proof.
+  intro op.
+  destruct op as [|x l]; [right; right; split; intros; reflexivity|].
+  destruct x as [|p|p]; try (right; right; split; intros; reflexivity).
+  destruct p as [p1|p1|]; [ | |right; right; split; intros; reflexivity].
+  - (* 15 = xI (xI (xI xH)) *)
+    destruct p1 as [p2|p2|]; [ |right; right; split; intros; reflexivity|right; right; split; intros; reflexivity].
+    destruct p2 as [p3|p3|]; [ |right; right; split; intros; reflexivity|right; right; split; intros; reflexivity].
+    destruct p3 as [p4|p4|]; [right; right; split; intros; reflexivity|right; right; split; intros; reflexivity| ].
+    destruct l as [|b [|n [|i [|z l']]]]; try (right; right; split; intros; reflexivity).
+    left. exists b, n, i. reflexivity.
+  - (* 16 = xO (xO (xO (xO xH))) *)
+    destruct p1 as [p2|p2|]; [right; right; split; intros; reflexivity| |right; right; split; intros; reflexivity].
+    destruct p2 as [p3|p3|]; [right; right; split; intros; reflexivity| |right; right; split; intros; reflexivity].
+    destruct p3 as [p4|p4|]; [right; right; split; intros; reflexivity| |right; right; split; intros; reflexivity].
+    destruct p4 as [p5|p5|]; [right; right; split; intros; reflexivity|right; right; split; intros; reflexivity| ].
+    destruct l as [|b vals]; [right; right; split; intros; reflexivity|].
+    right; left. exists b, vals. reflexivity.
+Qed.
+
+Lemma arr_step_nil : forall vr cls e, arr_step vr cls e [] = (e, None).
+Proof. reflexivity. Qed.
+
+Lemma arr_step_list : forall vr cls e b vals,
+  arr_step vr cls e (2 :: b :: vals) =
+  match aenv_get e b with
+  | None => if slot_ok b e then
+              let '(a, evs) := ctor_list vals in
+              (aenv_set e b (Some a), Some ([], if cls then evs else []))
+            else (e, None)
+  | Some _ => (e, None)
+  end.
+Proof. reflexivity. Qed.
+
+Lemma arr_step_resize_fill : forall vr cls e b n v,
+  arr_step vr cls e [10; b; n; v] =
+  match aenv_get e b with
+  | Some a => if 0 <=? n then
+                let '(a', evs) := resize_fill cls a n v in (aenv_set e b (Some a'), Some ([], evs))
+              else (e, None)
+  | None => (e, None)
+  end.
+Proof. reflexivity. Qed.
+
+Lemma arr_step_d_alias : forall g vr cls e b n i,
+  arr_step_d g vr cls e [15; b; n; i] =
+  match aenv_get e b with
+  | Some a => match resize_fill_alias g cls a n i with
+              | Some (a', evs) => (aenv_set e b (Some a'), Some ([], evs))
+              | None => (e, None)
+              end
+  | None => (e, None)
+  end.
+Proof. reflexivity. Qed.
+
+Lemma arr_step_d_adopt : forall g vr cls e b vals,
+  arr_step_d g vr cls e (16 :: b :: vals) =
+  match aenv_get e b with
+  | None => if slot_ok b e then (aenv_set e b (Some (adopt vals)), Some ([], [])) else (e, None)
+  | Some _ => (e, None)
+  end.
+Proof. reflexivity. Qed.
+
+Lemma adesugar_alias : forall cls e b n i,
+  adesugar cls e [15; b; n; i] =
+  match aenv_get e b with
+  | Some a => match read a i with
+              | Some (Live v, _) => [10; b; n; v]
+              | _ => []
+              end
+  | None => []
+  end.
+Proof. reflexivity. Qed.
+
+Lemma adesugar_adopt : forall cls e b vals, adesugar cls e (16 :: b :: vals) = 2 :: b :: vals.
+Proof. reflexivity. Qed.
+
+(* one line: same environment afterwards, same acceptance, same returned values *)
+Lemma arr_step_d_desugar : forall g vr cls e op,
+  fst (arr_step_d g vr cls e op) = fst (arr_step vr cls e (adesugar cls e op)) /\
+  option_map fst (snd (arr_step_d g vr cls e op)) =
+  option_map fst (snd (arr_step vr cls e (adesugar cls e op))).
+Proof.
+  intros g vr cls e op.
+  destruct (aop_cases op) as [(b & n & i & Eop) | [(b & vals & Eop) | [Hd Ha]]].
+  - subst op. rewrite arr_step_d_alias, adesugar_alias.
+    destruct (aenv_get e b) as [a|] eqn:G; [|rewrite arr_step_nil; split; reflexivity].
+    unfold resize_fill_alias.
+    destruct (read a i) as [[s u]|] eqn:R; [|rewrite arr_step_nil; split; reflexivity].
+    destruct s as [|v|]; try (rewrite arr_step_nil; split; reflexivity).
+    rewrite arr_step_resize_fill, G.
+    destruct (n <? 0) eqn:N.
+    + assert (N' : (0 <=? n) = false) by (apply Z.ltb_lt in N; apply Z.leb_gt; exact N).
+      rewrite N'. split; reflexivity.
+    + assert (N' : (0 <=? n) = true) by (apply Z.ltb_ge in N; apply Z.leb_le; exact N).
+      rewrite N'.
+      destruct (resize_fill cls a n v) as [a' evs] eqn:RF.
+      destruct g; split; reflexivity.
+  - subst op. rewrite arr_step_d_adopt, adesugar_adopt, arr_step_list.
+    destruct (aenv_get e b) as [a|] eqn:G; [split; reflexivity|].
+    destruct (slot_ok b e) eqn:S; [|split; reflexivity].
+    rewrite (adopt_is_list_state vals).
+    destruct (ctor_list vals) as [a evs] eqn:CL.
+    split; reflexivity.
+  - rewrite Hd, Ha. split; reflexivity.
+Qed.
+
+(* with respect to returned values and contents (events aside), a history containing aliasing resizes
+   and adoptions IS the history of ordinary operations obtained by replacing them *)
+Lemma arr_trace_d_view : forall cls ops e,
+  map view_arr (arr_trace_d true afixed cls e ops) = map view_arr (arr_trace afixed cls e (adesugar_all cls e ops)).
+Proof.
+  intros cls ops. induction ops as [|op rest IH]; intro e; [reflexivity|].
+  cbn [arr_trace_d adesugar_all arr_trace].
+  pose proof (arr_step_d_desugar true afixed cls e op) as [He Ho].
+  destruct (arr_step_d true afixed cls e op) as [e1 o1] eqn:S1.
+  destruct (arr_step afixed cls e (adesugar cls e op)) as [e2 o2] eqn:S2.
+  cbn [fst snd] in He, Ho. subst e2.
+  cbn [map fst]. rewrite (IH e1). f_equal.
+  unfold view_arr. cbn [fst snd]. rewrite Ho. reflexivity.
+Qed.
+
+Lemma alias_refines_values : forall cls ops,
+  map view_arr (arr_trace_d true afixed cls aenv0 ops) = map view_sarr (spec_trace cls senv0 (adesugar_all cls aenv0 ops)).
+Proof.
+  intros cls ops. rewrite arr_trace_d_view. apply arr_refines_values.
 Qed.
